@@ -223,6 +223,8 @@ ToE(g, r, ids) == MapSeq(ids, LAMBDA i : Mv(r, EElem(g, i)))
 SetKey(m, k, v) == M([x \in DOMAIN m[2] \cup {k} |-> IF x = k THEN v ELSE m[2][x]])
 RestrictM(m, ks) == M([x \in DOMAIN m[2] \cap ks |-> m[2][x]])
 
+UnwindOpen(s, r) == LET v == Lookup(r, s.field) IN ~(IsList(v) /\ v[2] # <<>>)
+
 StepRow(s, g, r) ==
   CASE s.op = "out"   -> IF r.cur.k = "v"
                          THEN ToV(g, r, MapSeq(OutEs(g, r.cur.gid, s.labels), LAMBDA e : g.E[e].to))
@@ -252,11 +254,17 @@ StepRow(s, g, r) ==
                                   ELSE EmptyMap] >>
     [] s.op = "render"   -> << [r EXCEPT !.out = [k |-> "r", v |-> RenderT(s.tpl, r)]] >>
     [] s.op = "path"     -> << [r EXCEPT !.out = [k |-> "p", p |-> r.path]] >>
-    [] s.op = "unwind"   -> LET lst == Lookup(r, s.field)[2]
-                            IN  [i \in DOMAIN lst |-> [r EXCEPT !.cur.data = SetKey(r.cur.data, s.field.p[1], lst[i])]]
+    [] s.op = "unwind"   -> IF UnwindOpen(s, r)
+                            THEN << [r EXCEPT !.cur.data = SetKey(r.cur.data, s.field.p[1], Null)] >>
+                            ELSE LET lst == Lookup(r, s.field)[2]
+                                 IN  [i \in DOMAIN lst |-> [r EXCEPT !.cur.data = SetKey(r.cur.data, s.field.p[1], lst[i])]]
 
-\* documented only for arrays: unwind is explored where every row holds a non-empty list
-UnwindDefined(s) == \A i \in DOMAIN rows : LET v == Lookup(rows[i], s.field) IN IsList(v) /\ v[2] # <<>>
+\* "Unwind an array" is documented for arrays only.  A row whose field is an empty list, absent or not a list
+\* is OPEN: the result may or may not contain one row for it, and if it does that row is the same element
+\* (id, label, endpoints, other data) with the field set to null.  Open rows are expressed as optional blocks,
+\* so they are only explored before any other choice.
+UnwindOpenAt(s, i) == LET v == Lookup(rows[i], s.field) IN ~(IsList(v) /\ v[2] # <<>>)
+UnwindDefined(s) == (\E i \in DOMAIN rows : UnwindOpenAt(s, i)) => (blocks = <<>> /\ ~counted)
 \* distinct is explored where every row has every key
 DistKey(s, r) == IF s.refs = <<>> THEN <<S(r.cur.gid)>> ELSE [i \in DOMAIN s.refs |-> Lookup(r, s.refs[i])]
 DistDefined(s) == \A i \in DOMAIN rows : \A j \in DOMAIN DistKey(s, rows[i]) : DistKey(s, rows[i])[j] # MISSING
@@ -339,6 +347,11 @@ Apply(s) ==
                 THEN UNCHANGED <<rows, blocks>>
                 ELSE /\ rows' = Retag
                      /\ blocks' = SetToSeq({ [kind |-> "one", orgs |-> grp(kk), pick |-> 1] : kk \in keys })
+     ELSE IF s.op = "unwind" /\ (\E i \in DOMAIN rows : UnwindOpenAt(s, i))
+     THEN /\ rows' = FlatMap(Retag, LAMBDA r : StepRow(s, G, r))
+          /\ blocks' = [i \in DOMAIN rows |-> [kind |-> "opt", orgs |-> {i}, pick |-> 1,
+                                                pmin |-> IF UnwindOpenAt(s, i) THEN 0 ELSE 1]]
+          /\ UNCHANGED <<counted, cntKeep>>
      ELSE /\ rows' = FlatMap(rows, LAMBDA r : StepRow(s, G, r))
           /\ UNCHANGED <<blocks, counted, cntKeep>>
 
@@ -396,7 +409,8 @@ EmitStep(s) ==
 EmitState ==
   Emit("st", [g |-> gi, prog |-> [i \in DOMAIN prog |-> EmitStep(prog[i])], status |-> status, ty |-> ty,
               mt |-> mt, counted |-> counted, cntKeep |-> cntKeep,
-              blocks |-> [b \in DOMAIN blocks |-> [orgs |-> blocks[b].orgs, pick |-> blocks[b].pick]],
+              blocks |-> [b \in DOMAIN blocks |-> [orgs |-> blocks[b].orgs, pick |-> blocks[b].pick,
+                                                    pmin |-> IF blocks[b].kind = "opt" THEN blocks[b].pmin ELSE blocks[b].pick]],
               rows |-> [i \in DOMAIN rows |-> [org |-> rows[i].org, o |-> OutRow(rows[i])]]])
 EmitGraphs == Emit("graphs", [i \in DOMAIN GraphFamily |-> [V |-> GraphFamily[i].V, E |-> GraphFamily[i].E]])
 ASSUME EmitGraphs
